@@ -26,13 +26,19 @@ where
     let totpoints = npoints * factor;
     let mut y = Vec::with_capacity(totpoints);
     let window = make_window::<T>(totpoints, windowfunc);
+    // The sum is used to normalise the gain, use compensated (Kahan) summation since
+    // a plain running sum of millions of f32 values is only accurate to about 0.1%.
     let mut sum = T::zero();
+    let mut compensation = T::zero();
     for (x, w) in window.iter().enumerate().take(totpoints) {
         let val = *w
             * sinc(
                 (T::coerce(x) - T::coerce(totpoints / 2)) * T::coerce(f_cutoff) / T::coerce(factor),
             );
-        sum += val;
+        let corrected = val - compensation;
+        let new_sum = sum + corrected;
+        compensation = (new_sum - sum) - corrected;
+        sum = new_sum;
         y.push(val);
     }
     sum /= T::coerce(factor);
